@@ -30,6 +30,7 @@ import (
 	"go/token"
 	"go/types"
 	"path/filepath"
+	"regexp"
 	"sort"
 	"strings"
 )
@@ -105,7 +106,10 @@ type fmop struct {
 	src  string
 	code int
 	args []string // Go sub-expressions of the statement (types.ExprString form), integers
-	seen bool
+	// rebind: opaque expressions whose value changes with this statement (`x = x.roundBelowQuantum(prec)` changes
+	// `x.MinPrec()`): from here on `e` stands for the parameter declared with source `e'`
+	rebind []string
+	seen   bool
 }
 
 type fact struct {
@@ -113,6 +117,9 @@ type fact struct {
 	// `z0.f` then means the receiver's field, or a scratch field (listed in scratch) that starts at its zero value
 	alias, aliasOf string
 	scratch        []string
+	// join: an if/switch all of whose branches fall through binds the variables they assign as one tuple
+	// (`let (a, b) := if c then … (a, b) else … (a, b)`) instead of duplicating the code that follows into each branch
+	join bool
 	// errResult: the Go method returns `error`; `return nil` is outcome 0, `return <call>` outcome 3
 	errResult bool
 	// rangeConds: the range loops of the function, in order: each must have the shape `for … { if c { return … } }`
@@ -147,7 +154,10 @@ type fctx struct {
 	locals map[string]ftype
 	sealed bool // an opaque kernel call without declared effects was made: nothing may follow
 	fresh  bool // the alias local points to a fresh Decimal on this path
-	indent string
+	// rebound opaque expressions (copy on write); poisoned: rebound in some branches of a joined if/switch only
+	rebound  map[string]bool
+	poisoned map[string]bool
+	indent   string
 }
 
 func (c fctx) in() fctx { c.indent += "  "; return c }
@@ -280,7 +290,7 @@ func (t *ftr) captureArg(ef *feffect, ce *ast.CallExpr, c fctx) string {
 		for _, a := range ce.Args {
 			ty, ok := t.typeOf(unparen(a))
 			if !ok {
-				return c.indent + t.fail(a, "captured argument has no scalar type") + "\n"
+				continue // a slice, string or pointer argument: not part of the scalar record
 			}
 			v := t.ex(a, c)
 			switch ty.k {
@@ -367,6 +377,12 @@ func lit(ty ftype, v constant.Value) (string, bool) {
 func (t *ftr) ex(e ast.Expr, c fctx) string {
 	e = unparen(e)
 	src := types.ExprString(e)
+	if c.poisoned[src] {
+		return t.fail(e, "%s is read after a joined branch that rebinds it on some paths only", src)
+	}
+	if c.rebound[src] {
+		src += "'"
+	}
 	if t.isAliasField(src) {
 		if c.fresh {
 			if _, ok := c.locals[src]; ok {
@@ -545,6 +561,11 @@ func (t *ftr) call(x *ast.CallExpr, c fctx) string {
 			tn = strings.TrimPrefix(tn[strings.LastIndex(tn, ".")+1:], "*")
 			callee = t.all[tn+"."+f.Sel.Name]
 			recv = types.ExprString(f.X)
+		}
+	}
+	if id, ok := x.Fun.(*ast.Ident); ok && (id.Name == "max" || id.Name == "min") && len(x.Args) == 2 {
+		if _, isBuiltin := t.p.info.Uses[id].(*types.Builtin); isBuiltin {
+			return "(" + id.Name + " " + t.ex(x.Args[0], c) + " " + t.ex(x.Args[1], c) + ")"
 		}
 	}
 	if callee == nil || callee.stateful || callee.locate != nil {
@@ -813,6 +834,16 @@ func (t *ftr) stmts(list []ast.Stmt, c fctx, k func(c fctx) string) string {
 				}
 				vals = append(vals, v)
 			}
+			if len(mo.rebind) > 0 {
+				nb := map[string]bool{}
+				for k := range c.rebound {
+					nb[k] = true
+				}
+				for _, r := range mo.rebind {
+					nb[r] = true
+				}
+				c.rebound = nb
+			}
 			return fmt.Sprintf("%s-- (mantissa) %s\n%slet mtrace : List (Nat × List Int) := mtrace ++ [(%d, [%s])]\n", c.indent, mo.src, c.indent, mo.code, strings.Join(vals, ", ")) + next(c)
 		}
 	}
@@ -1018,6 +1049,17 @@ func (t *ftr) stmts(list []ast.Stmt, c fctx, k func(c fctx) string) string {
 		default:
 			return c.indent + t.fail(x, "else branch") + "\n"
 		}
+		if t.f.join {
+			if out, ok := t.joinBranches([]string{cond}, [][]ast.Stmt{x.Body.List, els}, c, next); ok {
+				return out
+			}
+		}
+		// an `if` whose branches contain nothing but skipped (mantissa / buffer) statements does not split the path
+		if b1, ok1 := t.probeNoop(x.Body.List, c); ok1 {
+			if b2, ok2 := t.probeNoop(els, c); ok2 {
+				return fmt.Sprintf("%s-- if %s (no scalar effect in either branch)\n", c.indent, types.ExprString(x.Cond)) + b1 + b2 + next(c)
+			}
+		}
 		// locals declared inside a branch go out of scope: restore the outer table
 		outer := c.locals
 		back := func(ci fctx) string { ci.locals = restrict(ci.locals, outer); return next(ci) }
@@ -1053,6 +1095,34 @@ func (t *ftr) stmts(list []ast.Stmt, c fctx, k func(c fctx) string) string {
 				if br, ok := bs.(*ast.BranchStmt); ok {
 					return c.indent + t.fail(br, "%s in switch", br.Tok) + "\n"
 				}
+			}
+		}
+		if t.f.join {
+			var conds []string
+			var bodies [][]ast.Stmt
+			for _, cc := range clauses {
+				var alts []string
+				for _, v := range cc.List {
+					if tag == "" {
+						alts = append(alts, t.ex(v, c))
+					} else {
+						alts = append(alts, fmt.Sprintf("(decide (%s = %s))", tag, t.ex(v, c)))
+					}
+				}
+				cond := strings.Join(alts, " || ")
+				if len(alts) > 1 {
+					cond = "(" + cond + ")"
+				}
+				conds = append(conds, cond)
+				bodies = append(bodies, cc.Body)
+			}
+			if deflt != nil {
+				bodies = append(bodies, deflt.Body)
+			} else {
+				bodies = append(bodies, nil)
+			}
+			if out, ok := t.joinBranches(conds, bodies, c, next); ok {
+				return out
 			}
 		}
 		var sb strings.Builder
@@ -1143,6 +1213,152 @@ func (t *ftr) stmts(list []ast.Stmt, c fctx, k func(c fctx) string) string {
 		return c.indent + t.fail(x, "statement %s", stmtString(t.p, x)) + "\n"
 	}
 	return c.indent + t.fail(s, "statement %T", s) + "\n"
+}
+
+var letLine = regexp.MustCompile(`^\s*let ([A-Za-z_][A-Za-z0-9_']*) : (.+?) := `)
+
+// joinBranches translates a conditional all of whose branches fall through as one tuple binding. conds[i] guards
+// bodies[i]; the last body is the else branch (possibly empty). ok = false: not joinable (a branch returns, panics,
+// makes an opaque call that ends the function, or the paths differ in translation state) — nothing was emitted.
+func (t *ftr) joinBranches(conds []string, bodies [][]ast.Stmt, c fctx, next func(fctx) string) (string, bool) {
+	const marker = "\x00J\x00"
+	nProblems, nRange := len(t.problems), t.f.rangeSeen
+	fail := func() (string, bool) {
+		t.problems, t.f.rangeSeen = t.problems[:nProblems], nRange
+		return "", false
+	}
+	visible := map[string]bool{"tail": true, "arg": true, "arg2": true, "args": true, "mtrace": true}
+	for k := range c.locals {
+		visible[leanName(k)] = true
+	}
+	for _, prm := range t.f.params {
+		if prm.state || !strings.ContainsAny(prm.src, ".( <") {
+			visible[prm.name] = true // receiver fields and plain function parameters can be assigned
+		}
+	}
+	depth := len(bodies)
+	var outs []string
+	var names []string
+	types_ := map[string]string{}
+	rebound := map[string]bool{}
+	poisoned := map[string]bool{}
+	for k := range c.rebound {
+		rebound[k] = true
+	}
+	for k := range c.poisoned {
+		poisoned[k] = true
+	}
+	for i, body := range bodies {
+		bc := c
+		// indentation of the branch body: under `let … :=` / `if … then`, one level per else
+		lvl := i
+		if i == depth-1 && i > 0 {
+			lvl = i - 1
+		}
+		bc.indent = c.indent + strings.Repeat("  ", 2+lvl)
+		var final fctx
+		got := false
+		out := t.stmts(body, bc, func(ci fctx) string { final, got = ci, true; return marker })
+		if !got || strings.Count(out, marker) != 1 || !strings.HasSuffix(out, marker) || len(t.problems) != nProblems {
+			return fail()
+		}
+		if final.sealed != c.sealed || final.fresh != c.fresh {
+			return fail()
+		}
+		for k := range final.rebound {
+			if !c.rebound[k] {
+				rebound[k] = true
+			}
+		}
+		out = strings.TrimSuffix(out, marker)
+		for _, ln := range strings.Split(out, "\n") {
+			if m := letLine.FindStringSubmatch(ln); m != nil && visible[m[1]] {
+				if _, seen := types_[m[1]]; !seen {
+					names = append(names, m[1])
+					types_[m[1]] = m[2]
+				} else if types_[m[1]] != m[2] {
+					return fail()
+				}
+			}
+		}
+		outs = append(outs, out)
+	}
+	// an expression rebound on some paths only must not be read afterwards
+	for k := range rebound {
+		if c.rebound[k] {
+			continue
+		}
+		all := true
+		_ = all
+		poisoned[k] = true
+	}
+	c2 := c
+	c2.rebound, c2.poisoned = c.rebound, poisoned
+	if len(names) == 0 {
+		for _, o := range outs {
+			for _, ln := range strings.Split(o, "\n") {
+				if tr := strings.TrimSpace(ln); tr != "" && !strings.HasPrefix(tr, "--") {
+					return fail() // binds something that is not visible outside: keep the plain translation
+				}
+			}
+		}
+		return strings.Join(outs, "") + next(c2), true
+	}
+	tuple := names[0]
+	ttype := types_[names[0]]
+	if len(names) > 1 {
+		tuple = "(" + strings.Join(names, ", ") + ")"
+		var ts []string
+		for _, n := range names {
+			ts = append(ts, types_[n])
+		}
+		ttype = strings.Join(ts, " × ")
+	}
+	var sb strings.Builder
+	fmt.Fprintf(&sb, "%slet %s : %s :=\n", c.indent, tuple, ttype)
+	ind := c.indent + "  "
+	for i := range bodies {
+		if i < len(conds) {
+			fmt.Fprintf(&sb, "%sif %s then\n%s%s  %s\n", ind, conds[i], outs[i], ind, tuple)
+			if i+1 < len(bodies) {
+				fmt.Fprintf(&sb, "%selse\n", ind)
+				if i+1 < len(conds) {
+					ind += "  "
+				}
+			}
+		} else {
+			fmt.Fprintf(&sb, "%s%s  %s\n", outs[i], ind, tuple)
+		}
+	}
+	return sb.String() + next(c2), true
+}
+
+// probeNoop translates a statement list with a marker continuation and reports whether it produced nothing but
+// comments and left the translation state untouched; the comments are returned.
+func (t *ftr) probeNoop(list []ast.Stmt, c fctx) (string, bool) {
+	const marker = "\x00K\x00"
+	nProblems, nRange := len(t.problems), t.f.rangeSeen
+	changed := false
+	out := t.stmts(list, c.in(), func(ci fctx) string {
+		if ci.sealed != c.sealed || ci.fresh != c.fresh || len(ci.locals) != len(c.locals) || len(ci.rebound) != len(c.rebound) {
+			changed = true
+		}
+		return marker
+	})
+	ok := !changed && len(t.problems) == nProblems && strings.Count(out, marker) == 1 && strings.HasSuffix(out, marker)
+	body := strings.TrimSuffix(out, marker)
+	if ok {
+		for _, ln := range strings.Split(body, "\n") {
+			if tr := strings.TrimSpace(ln); tr != "" && !strings.HasPrefix(tr, "--") {
+				ok = false
+			}
+		}
+	}
+	if !ok {
+		t.problems, t.f.rangeSeen = t.problems[:nProblems], nRange
+		return "", false
+	}
+	return body, true
 }
 
 // applyEffect renders an opaque call: tail code, captured arguments, then either the end of the function (stop
@@ -1497,6 +1713,8 @@ func baseFacts() []*fact {
 		{lean: "makeAcc", fn: "makeAcc", params: ps("above", "above")},
 		{lean: "umax32", fn: "umax32", params: ps("x", "x", "y", "y")},
 		{lean: "addExp", fn: "addExp", params: ps("a", "a", "b", "b")},
+		{lean: "goMax", fn: "max", params: ps("x", "x", "y", "y")},
+		{lean: "goMin", fn: "min", params: ps("x", "x", "y", "y")},
 		{lean: "ord", fn: "Decimal.ord", params: ps("form", "x.form", "neg", "x.neg")},
 		{lean: "Sign", fn: "Decimal.Sign", params: ps("form", "x.form", "neg", "x.neg")},
 		{lean: "Signbit", fn: "Decimal.Signbit", params: ps("neg", "x.neg")},
@@ -1607,6 +1825,21 @@ func baseFacts() []*fact {
 				{src: "z.Mul(x, y)", code: 1},
 				{src: "z0.umul(x, y)", code: 3, havoc: [][2]string{{"z0.form", "<form after umul>"}, {"z0.acc", "<acc after umul>"}}},
 				{src: "z.Add(z0, u)", code: 2}}},
+		{lean: "Append", fn: "Decimal.Append", stateful: true, join: true,
+			doc: "digits/exp = x.MinPrec(), x.MantExp(nil) of the operand; digitsR/expR = the same of the rounded copy (after mtrace code 1 or 2); args = the scalar arguments of the formatter reached",
+			params: ps("capBuf", "cap(buf)", "xNeg", "x.neg", "xForm", "x.form", "f", "fmt", "p", "prec",
+				"digits0", "x.MinPrec()", "exp0", "x.MantExp(nil)", "digitsR", "x.MinPrec()'", "expR", "x.MantExp(nil)'"),
+			skip: []string{"buf = make([]byte, 0, x.bufSizeForFmt(fmt, prec))", "buf = append(buf, '-')", "buf = append(buf, '+')", "buf = buf[:len(buf) - 1]"},
+			mops: []*fmop{
+				{src: "x = x.roundBelowQuantum(prec)", code: 1, args: []string{"prec"}, rebind: []string{"x.MinPrec()", "x.MantExp(nil)"}},
+				{src: "x = new(Decimal).SetMode(x.mode).SetPrec(uint(rnd)).Set(x)", code: 2, args: []string{"uint(rnd)"}, rebind: []string{"x.MinPrec()", "x.MantExp(nil)"}}},
+			effects: []*feffect{
+				{src: "append(buf, \"Inf\"...)", code: 1, capAll: true},
+				{src: "x.fmtB(buf)", code: 2, capAll: true},
+				{src: "x.fmtP(buf)", code: 3, capAll: true},
+				{src: "x.fmtE", code: 4, capAll: true},
+				{src: "x.fmtF", code: 5, capAll: true},
+				{src: "append(buf, '%', fmt)", code: 6, capAll: true}}},
 		{lean: "GobDecode", fn: "Decimal.GobDecode", stateful: true, errResult: true, rangeConds: []string{"<some word >= _DB>"}, rangeText: []string{"_, w := range mant | w >= _DB"},
 			doc: "outcome 3 = an error is returned; hdr = buf[1], precU = the precision field, expU = the exponent field, topWord = mant[len(mant)-1], anyBig = some decoded word >= _DB, tz = mant.trailingZeroDigits()",
 			params: append(ps("lenBuf", "len(buf)", "ver", "buf[0]", "hdr", "buf[1]", "precU", "binary.BigEndian.Uint32(buf[2:])",
